@@ -342,3 +342,16 @@ PROPS["C10"]["functions"] += ["vectorizers/multi_token_cooccurence_vectorizer.py
 
 for _p in ("C06", "C10"):
     PROPS[_p]["functions"] += ["vectorizers/skip_gram_vectorizer.py::build_skip_grams"]
+
+# C04 at kernel level: the four event kernels carry "what each accumulator stores under a key == the values emitted under that key"
+PROPS["C04"]["functions"] += [_TK, _NGK, "vectorizers/timed_token_cooccurrence_vectorizer.py::numba_build_skip_grams",
+                              "vectorizers/multi_token_cooccurence_vectorizer.py::numba_build_multi_skip_grams"]
+
+# the lemma library (induction proofs of the prefix-sum / keyed-sum lemmas) is part of every check whose contracts invoke a lemma
+import contracts as _C
+_ALLC, _ = _C.load_all()
+for _pid, _P in PROPS.items():
+    _fs = list(dict.fromkeys(_P.get("functions", [])))
+    if any(any(w in repr({k: v for k, v in _ALLC.get(f, {}).items() if not callable(v)}) for w in ("lemma(", "psum_monotone", "psum_bound", "ksum_")) for f in _fs) and "lemma::ksum" not in _fs:
+        _fs.append("lemma::ksum")
+    _P["functions"] = _fs
